@@ -427,6 +427,9 @@ def run(ck):
     ck.rule("C03-OBL", "each rejection demanded by the formats has its guard; the violating edge returns the error")
     evaluate(ck, prog, "C03-OBL", TABLE, floor=20)
     check_exh(ck, prog)
+    # a valid stream is accepted however the input is sliced: resumable decoders persist every live local
+    from . import C06
+    C06.check_resume(ck, prog, RULE="C03-RESUME", only_files={"lzma_decoder.c", "lzma2_decoder.c", "lz_decoder.c", "block_decoder.c", "stream_decoder.c", "index_decoder.c", "index_hash.c", "vli_decoder.c", "stream_decoder_mt.c"}, floor=8)
     # a dictionary reset (LZMA2 control 0x01 / >= 0xE0 in the middle of a stream) must forget everything that the
     # coding so far left in the window bookkeeping
     from . import reinit
